@@ -13,7 +13,9 @@ macro_rules! impl_for_ca {
                 fn titer(&self) -> impl TIterator<Item=Option<$real>>
                 // where Option<$real>: 'a
                 {
-                    self.into_iter()
+                    // polars' own iterators keep announcing their initial length after
+                    // partial consumption; TrustIter keeps the size hint exact
+                    self.into_iter().to_trust(self.len())
                 }
             }
         )*
@@ -161,7 +163,7 @@ impl_for_ca!(
 impl<'a> TIter<Option<&'a str>> for &'a ChunkedArray<StringType> {
     #[inline]
     fn titer(&self) -> impl TIterator<Item = Option<&'a str>> {
-        self.into_iter()
+        self.into_iter().to_trust(self.len())
     }
 }
 
@@ -227,7 +229,7 @@ impl TIter<DateTime<unit::Nanosecond>> for &DatetimeChunked {
         match self.dtype() {
             DataType::Datetime(TimeUnit::Nanoseconds, _) => {
                 // TODO(Teamon): support timezone in future
-                self.into_iter().map(|v| v.cast())
+                self.into_iter().to_trust(self.len()).map(|v| v.cast())
             },
             _ => unreachable!("datetime chunked should be nanoseconds unit"),
         }
@@ -242,7 +244,7 @@ impl TIter<DateTime<unit::Millisecond>> for &DatetimeChunked {
         match self.dtype() {
             DataType::Datetime(TimeUnit::Microseconds, _) => {
                 // TODO(Teamon): support timezone in future
-                self.into_iter().map(|v| v.cast())
+                self.into_iter().to_trust(self.len()).map(|v| v.cast())
             },
             _ => unreachable!("datetime chunked should be milliseconds unit"),
         }
@@ -257,7 +259,7 @@ impl TIter<DateTime<unit::Microsecond>> for &DatetimeChunked {
         match self.dtype() {
             DataType::Datetime(TimeUnit::Microseconds, _) => {
                 // TODO(Teamon): support timezone in future
-                self.into_iter().map(|v| v.cast())
+                self.into_iter().to_trust(self.len()).map(|v| v.cast())
             },
             _ => unreachable!("datetime chunked should be microseconds unit"),
         }
